@@ -318,11 +318,15 @@ func genCase(t *rapid.T) Case {
 		} else {
 			c.SlowFirstMs = rapid.IntRange(2300, 3300).Draw(t, "slowFirstMs")
 		}
-		// in half of them the profile goes on behind a pause of 0.2-2.5 s with 1-3 more instances: tokens that become due
-		// late in the creation of the first instance (less than 2 s overdue when it is done) or after it
+		// in half of them the profile goes on behind a pause with 1-3 more instances: tokens that become due late in the
+		// creation of the first instance (at most 1.9 s overdue when it is done) or up to 0.3 s after it - a ramp of which
+		// only the beginning is 2 s and more overdue
 		if rapid.Bool().Draw(t, "slowFirstLateTokens") {
 			more := rapid.IntRange(1, 3).Draw(t, "lateTokens")
-			pause := rapid.IntRange(200, 2500).Draw(t, "latePauseMs")
+			pause := rapid.IntRange(200, 1500).Draw(t, "latePauseMs")
+			if c.SlowFirstMs >= 2000 {
+				pause = c.SlowFirstMs - 1900 + rapid.IntRange(0, 2200).Draw(t, "latePauseOverMs")
+			}
 			c.Startup = sg.Node{Kind: "composite", Children: []sg.Node{c.Startup,
 				{Kind: "const", From: 0, DurNs: int64(pause) * int64(time.Millisecond)}, {Kind: "once", N: int64(more)}}}
 			if c.Buffered && c.Mode == "per_instance" {
